@@ -18,7 +18,9 @@ RULE = ('(logic) queues of 1-4 requests mixing empty, single-frame, multi-frame,
         'completely (single frames included), BlockingSendFailure for aborted ones, BlockingSendTimeout only after send_timeout elapsed, '
         'no caller left blocked after stop().'
         ' (blocking, hand-over) the request is completed between its hand-over to the layer and the moment the caller starts to wait (post_send_callback drives process() / reset(); a processing thread completes while the caller is held in the callback): send() returns or raises BlockingSendFailure, never times out.'
-        ' (two_callers) a queued blocking send() times out while another caller has a request in transmission to a cooperative peer: the second gets BlockingSendTimeout, the first returns normally and its payload is delivered.')
+        ' (two_callers) a queued blocking send() times out while another caller has a request in transmission to a cooperative peer: the second gets BlockingSendTimeout, the first returns normally and its payload is delivered.'
+        ' (stop_without_worker) stop() on a layer whose worker thread is not running (never started / already stopped) with a caller blocked in send(): released with BlockingSendFailure.'
+        ' (logic) rule: MaximumWaitFrameReachedError needs more than wftmax Wait frames since the First Frame of the message.')
 ASSUME = ['the blocking variant depends on threading.Event and the worker thread: sampled with real threads, not proved']
 
 
@@ -213,6 +215,44 @@ def blocking_stop_run():
     return {'outcomes': dict(out), 'alive': [t1.is_alive(), t2.is_alive()], 'elapsed': time.time() - t0, 'transmitting': A.transmitting()}
 
 
+def stop_without_worker_run(kind):
+    """stop() on a layer whose worker thread is not running - never started ('never_started'), or stopped before the request was handed
+    over ('stopped') - with a caller blocked in send(): stop() drops the queued request, the caller must be released with
+    BlockingSendFailure, not left waiting for its timeout."""
+    import isotp
+    q = queue.Queue()
+
+    def rxf(timeout):
+        time.sleep(min(timeout, 0.02))
+        return None
+    a = isotp.Address(isotp.AddressingMode.Normal_11bits, txid=0x111, rxid=0x222)
+    A = isotp.TransportLayer(rxfn=rxf, txfn=q.put, address=a, params={'blocking_send': True}, read_timeout=0.02)
+    if kind == 'stopped':
+        A.start()
+        time.sleep(0.1)
+        A.stop()
+    out = {}
+
+    def worker():
+        t0 = time.time()
+        try:
+            A.send(bytes(30), send_timeout=6.0)
+            out['caller'] = 'ok'
+        except isotp.BlockingSendTimeout:
+            out['caller'] = 'timeout'
+        except isotp.BlockingSendFailure:
+            out['caller'] = 'failure'
+        except Exception as e:
+            out['caller'] = 'other:' + type(e).__name__
+        out['waited'] = round(time.time() - t0, 2)
+    t1 = threading.Thread(target=worker, daemon=True)
+    t1.start()
+    time.sleep(0.3)
+    A.stop()
+    t1.join(3.0)
+    return {'kind': kind, 'outcomes': dict(out), 'alive': t1.is_alive(), 'transmitting': A.transmitting()}
+
+
 def handover_run(kind):
     """the request is completed between its hand-over to the layer and the moment the caller starts to wait: by a post_send_callback
     that drives process() itself ('callback'), that drops the request with reset() ('abort'), or by another thread processing while the caller is
@@ -358,6 +398,18 @@ def run_shard(campaign, shard, nshards, seed, tier):
                                    'stop() with a caller blocked in send(): outcomes %s, still blocked %s, transmitting=%s' % (res['outcomes'], res['alive'], res['transmitting']),
                                    {'scenario': 'stop_while_blocked', 'result': res})
                 part.sample({'scenario': 'stop_while_blocked', 'result': res})
+        if shard == 3 % nshards:
+            for rep in range(reps):
+                for kind in ('never_started', 'stopped'):
+                    res = stop_without_worker_run(kind)
+                    part.d['evaluations'] += 1
+                    part.distinct(('stop_without_worker', kind, rep))
+                    part.hist('blocking_outcome', 'stop_without_worker-%s/%s' % (kind, res['outcomes'].get('caller')))
+                    if res['alive'] or res['outcomes'].get('caller') != 'failure' or res['transmitting']:
+                        part.violation('oracle', campaign, 'C12:caller-left-blocked-after-stop',
+                                       'stop() on a layer without a running worker (%s) with a caller blocked in send(): outcome %s, still blocked %s, transmitting=%s' % (
+                                           kind, res['outcomes'], res['alive'], res['transmitting']), {'scenario': 'stop_without_worker', 'result': res})
+                    part.sample({'scenario': 'stop_without_worker', 'result': res})
         if shard == 2 % nshards:
             for rep in range(reps):
                 res = two_callers_run()
